@@ -30,8 +30,9 @@ class WaitHarness:
     points relative to the list / wait RPCs."""
     max_polls = 60
     stop_on_first_violation = True
-    def __init__(self, c, nparts, codes, faults=0, fault_codes=()):
+    def __init__(self, c, nparts, codes, faults=0, fault_codes=(), ids=None):
         self.c = c
+        self.ids = ids          # [(groupid, partid)] per part; default: one group, part ids 1..n
         self.nparts = nparts
         self.codes = codes
         self.faults = faults
@@ -46,7 +47,8 @@ class WaitHarness:
         m.st.env = env
         m.st.roots['H'] = H
         for i in range(self.nparts):
-            p = Part(i, H, groupid=1, partid=i + 1)
+            g, pi = self.ids[i] if self.ids else (1, i + 1)
+            p = Part(i, H, groupid=g, partid=pi)
             p.status = ('pending', 'complete', 'failed')[m.choose(3, 'part%d.initial' % i)]
             env.parts.append(p)
         prov = provider_value()
@@ -107,13 +109,19 @@ def script_from_log(env, H='11' * 32):
             steps.append({'advance_ms': (int(ns) // 1000000 if isinstance(ns, int) else 1000) + 1})
         elif x[0] == 'listsendpays':
             want = x[1]
-            parts = [{'id': pid, 'status': st} for pid, st in x[2] if st == want]
+            ids = dict((p.pid, (p.groupid, p.partid)) for p in env.parts)
+            parts = [{'id': pid, 'status': st, 'groupid': ids.get(pid, (1, pid + 1))[0], 'partid': ids.get(pid, (1, pid + 1))[1]}
+                     for pid, st in x[2] if st == want]
             steps.append({'method': 'listsendpays', 'status': want, 'parts': parts})
         elif x[0] == 'waitsendpay':
+            ids = dict((p.pid, (p.groupid, p.partid)) for p in env.parts)
+            g, pi = ids.get(x[1], (1, (x[1] or 0) + 1))
             if x[2] == 'complete':
-                steps.append({'method': 'waitsendpay', 'part': x[1], 'complete': True})
+                steps.append({'method': 'waitsendpay', 'part': x[1], 'complete': True, 'groupid': g, 'partid': pi})
             elif x[2] == 'failed':
-                steps.append({'method': 'waitsendpay', 'part': x[1], 'code': x[3]})
+                steps.append({'method': 'waitsendpay', 'part': x[1], 'code': x[3], 'groupid': g, 'partid': pi})
+            elif x[2] == 'timeout':
+                steps.append({'method': 'waitsendpay', 'part': None, 'code': 200})
             else:
                 steps.append({'method': 'waitsendpay', 'part': None, 'code': 208})
         elif x[0] == 'part':
@@ -179,6 +187,11 @@ def main(tier, seed, args):
         report(rep, 'wait_payment[%d parts]' % k, ex)
         if ex.violations:
             break
+    if not rep.violations:
+        # parts of two attempts (groups) that share a part id: a part is identified by (groupid, partid)
+        h = WaitHarness(c, 2, (203, 204), ids=[(1, 1), (2, 1)])
+        ex = run_explorer(rep, c, h, 'wait_payment[2 parts in two groups, same part id]', max_states=300000)
+        report(rep, 'wait_payment[two groups]', ex)
     if not rep.violations:
         fc = ((200, 'Rpc'), (None, 'General')) if tier == 'quick' else ((-1, 'Rpc'), (200, 'Rpc'), (999, 'Rpc'), (None, 'General'))
         h = WaitHarness(c, 2, (204,), faults=1, fault_codes=fc)
